@@ -53,7 +53,7 @@ func stdFns() []stdFn {
 				out += fmt.Sprintf("%d [%s]\n", i, e)
 			}
 			return out
-		}, maxLen: []int{3, 1}},
+		}, maxLen: []int{3, 2}},
 		{name: "Repeat", nStr: 1, count: true, call: func(a []string, n string) string { return "print(\"[\" + strings.Repeat(" + a[0] + ", " + n + ") + \"]\")\n" },
 			ref: func(a []string, n int) string {
 				if n < 0 {
@@ -84,7 +84,7 @@ func stdFns() []stdFn {
 		}, ref: func(a []string, n int) string {
 			x, y, f := strings.Cut(a[0], a[1])
 			return "[" + x + "] [" + y + "] " + b01(f) + "\n"
-		}, maxLen: []int{3, 1}},
+		}, maxLen: []int{3, 2}},
 		{name: "TrimPrefix", nStr: 2, call: func(a []string, n string) string { return "print(\"[\" + strings.TrimPrefix(" + a[0] + ", " + a[1] + ") + \"]\")\n" },
 			ref: func(a []string, n int) string { return "[" + strings.TrimPrefix(a[0], a[1]) + "]\n" }, maxLen: []int{2, 2}},
 		{name: "TrimSuffix", nStr: 2, call: func(a []string, n string) string { return "print(\"[\" + strings.TrimSuffix(" + a[0] + ", " + a[1] + ") + \"]\")\n" },
